@@ -1152,6 +1152,7 @@ class FlipLanesC(_Prim):
     other lanes gives the exact partial derivative"""
 
     cases = ["B=1", "B=2", "B=3"]
+    tiers = ("thorough",)  # superseded by the unbounded loop-invariant contract FlipLanesLoop; kept as a whole-function cross-check
 
     def call(self, case):
         reset()
@@ -1176,6 +1177,164 @@ class FlipLanesC(_Prim):
         with_lane = lambda i, val: tuple(z3.BoolVal(val) if j == i else bs[j] for j in range(B))
         corr = z3.Sum([(k.KP(with_lane(i, True)) - k.KP(with_lane(i, False))) * self.dp.fn((z3.IntVal(i),)) for i in range(B)])
         yield "tangent_is_f'(b)_plus_sum_i_(f(b|i=T)-f(b|i=F))_p'_i", same(out.tangent, Sym(k.KT(tuple(bs)) + corr))
+
+
+class _SymRange:
+    """shadow of `range` for the lane loop: a symbolic trip count is kept as it is (the loop itself is replaced by
+    its invariant)"""
+
+    def __init__(self, n):
+        self.n = n
+
+
+class KontArr:
+    """abstract continuation of a VECTOR of booleans of symbolic length: a function of the whole vector (an
+    array Int -> Bool); kdual(Dual(b, zero tangent)) = Dual(KP(b), KT(b))"""
+
+    def __init__(self, barr, B):
+        n = engine().fresh_name
+        A = z3.ArraySort(z3.IntSort(), z3.BoolSort())
+        self.KP = z3.Function(n("KPv"), A, z3.RealSort())
+        self.KT = z3.Function(n("KTv"), A, z3.RealSort())
+        self.barr, self.B = barr, B
+        self.dcalls = []
+
+    def as_array(self, t):
+        """array term of a boolean vector built from the drawn vector `barr` by (at most) one functional update"""
+        if not isinstance(t, Tensor) or t.ndim != 1:
+            raise EngineLimit("continuation of a non-vector")
+        j = z3.Int("lane!j")
+        e = z3.simplify(t.fn((j,)))
+        if z3.eq(e, z3.simplify(z3.Select(self.barr, j))):
+            return self.barr
+        # b.at[i].set(v): If(j == i, v, barr[j])
+        if z3.is_app(e) and e.decl().kind() == z3.Z3_OP_ITE:
+            c, v, rest = e.children()
+            if z3.eq(z3.simplify(rest), z3.simplify(z3.Select(self.barr, j))) and z3.is_eq(c):
+                l, r = c.children()
+                i = r if z3.eq(l, j) else l if z3.eq(r, j) else None
+                if i is not None and not AD_mentions(v, j) and not AD_mentions(i, j):
+                    return z3.Store(self.barr, i, v)
+        return z3.Lambda([j], e)
+
+    def kdual(self, *duals):
+        self.dcalls.append(duals)
+        if len(duals) != 1 or not isinstance(duals[0], Dual):
+            raise documented(TypeError("continuation expects exactly one Dual"))
+        d = duals[0]
+        if not AD.is_zero_tangent(d.tangent):
+            raise EngineLimit("lane continuation with a non-zero tangent")
+        a = self.as_array(d.primal)
+        return Dual(Sym(self.KP(a)), Sym(self.KT(a)))
+
+    def kpure(self, *vals):
+        return [Sym(self.KP(self.as_array(vals[0])))]
+
+
+def AD_mentions(e, what):
+    if z3.eq(e, what):
+        return True
+    return any(AD_mentions(c, what) for c in e.children())
+
+
+@contract("genjax.adev:_flip_lane_rb_estimate", ["C11"])
+class FlipLanesLoop(_Prim):
+    """UNBOUNDED (any number of lanes B >= 1): loop invariant of the lane loop on the mechanically extracted pieces.
+    Ghost: PS(i) = sum_{j<i} (f(b|j=T) - f(b|j=F)) p'_j.  prefix: one vector of Bernoulli(p) draws b, value f(b),
+    est = PS(0) = 0, the loop runs over range(B);  body at a generic lane i with est = PS(i): est' = PS(i) +
+    (f(b|i=T) - f(b|i=F)) p'_i for EITHER value of b_i (array theory: Store(b, i, b_i) = b);  suffix: (f(b), f'(b) +
+    PS(B)).  By the loop-invariant rule the tangent is f'(b) + sum_i (f(b|i=T) - f(b|i=F)) p'_i, whose average over
+    the other lanes is the exact partial derivative"""
+
+    cases = ["prefix", "body", "suffix"]
+
+    def call(self, case):
+        from vt import loops
+
+        reset()
+        eng = engine()
+        self.B = fresh("B", z3.IntSort())
+        eng.assume(self.B >= 1)
+        self.barr = fresh("b_drawn", z3.ArraySort(z3.IntSort(), z3.BoolSort()))
+        self.k = KontArr(self.barr, self.B)
+        self.p, self.dp = Tensor.fresh("p", (self.B,)), Tensor.fresh("dp", (self.B,))
+        outer = self
+        self.draws = []
+
+        class LaneFlip:
+            def sample(s, p, sample_shape=()):
+                Assumed.note("A-TFP: flip.sample(p) for a vector p is a vector of independent Bernoulli(p_i) draws (an arbitrary boolean vector b)")
+                outer.draws.append(p)
+                return Tensor(p.shape, lambda idx: z3.Select(outer.barr, idx[0]))
+
+        self.pc = loops.pieces(adev._flip_lane_rb_estimate, 0)
+        if self.pc["n_loops"] != 1 or self.pc["targets"] != ["i"]:
+            raise EngineLimit("lane loop restructured: %r loops, targets %r" % (self.pc["n_loops"], self.pc["targets"]))
+        names = self.pc["locals"]
+        for nm in ("kdual", "p_primal", "p_tangent", "est"):
+            if nm not in names:
+                raise EngineLimit("lane loop piece has no local %r" % nm)
+        saved = (adev.flip, getattr(adev, "int", None), getattr(adev, "range", None))
+        adev.flip = LaneFlip()
+        adev.int = lambda x: x if isinstance(x, Sym) else int(x)
+        adev.range = _SymRange
+        try:
+            base = {n: None for n in names}
+            base.update(kpure=self.k.kpure, kdual=self.k.kdual, p_primal=self.p, p_tangent=self.dp)
+            kind, locs = self.real(self.pc["prefix"], **base)
+            if case == "prefix":
+                _k, it = self.pc["iter"](**locs)
+                self.iter = it
+                return kind, locs
+            if kind != "fallthrough":
+                raise EngineLimit("prefix returned early")
+            self.n_kcalls = len(self.k.dcalls)
+            # arbitrary loop state satisfying the invariant: est = PS(i)
+            self.PS = z3.Function(eng.fresh_name("PS"), z3.IntSort(), z3.RealSort())
+            if case == "body":
+                self.i = fresh("lane", z3.IntSort())
+                eng.assume(z3.And(self.i >= 0, self.i < self.B))
+                locs = dict(locs, est=Sym(self.PS(self.i)), i=Sym(self.i))
+                return self.real(self.pc["body"], **locs)
+            locs = dict(locs, est=Sym(self.PS(self.B)))
+            return self.real(self.pc["suffix"], **locs)
+        finally:
+            adev.flip = saved[0]
+            for nm, v in (("int", saved[1]), ("range", saved[2])):
+                if v is None:
+                    adev.__dict__.pop(nm, None)
+                else:
+                    setattr(adev, nm, v)
+
+    def term(self, i):
+        k = self.k
+        return (k.KP(z3.Store(self.barr, i, z3.BoolVal(True))) - k.KP(z3.Store(self.barr, i, z3.BoolVal(False)))) * self.dp.fn((i,))
+
+    def ensures(self, case, path):
+        yield "does_not_raise", path.outcome == "return"
+        if path.outcome != "return":
+            return
+        k = self.k
+        if case == "prefix":
+            kind, locs = path.value
+            yield "falls_through_to_the_loop", kind == "fallthrough"
+            if kind != "fallthrough":
+                return
+            yield "one_vector_of_bernoulli_draws_with_the_given_probabilities", len(self.draws) == 1 and self.draws[0] is self.p
+            yield "continuation_evaluated_once_on_the_drawn_vector", len(k.dcalls) == 1
+            yield "estimate_starts_at_zero(PS(0))", same(locs["est"], 0.0)
+            yield "loop_runs_over_every_lane(range(B))", isinstance(self.iter, _SymRange) and same(self.iter.n, Sym(self.B))
+            return
+        if case == "body":
+            kind, locs = path.value
+            yield "invariant_preserved(est' = PS(i) + (f(b|i=T) - f(b|i=F)) p'_i for either value of b_i)", same(locs["est"], Sym(self.PS(self.i) + self.term(self.i)))
+            yield "one_more_continuation_call_per_lane", len(k.dcalls) == self.n_kcalls + 1
+            return
+        kind, out = path.value
+        yield "returns", kind == "return" and isinstance(out, Dual)
+        if kind == "return" and isinstance(out, Dual):
+            yield "value_is_f(b)", same(out.primal, Sym(k.KP(self.barr)))
+            yield "tangent_is_f'(b)_plus_the_accumulated_lane_corrections(PS(B))", same(out.tangent, Sym(k.KT(self.barr) + self.PS(self.B)))
 
 
 # ------------------------------------------------------------------------------------------------
